@@ -24,8 +24,12 @@ impl GenerationPass for LivenessPass {
             .map(|func| Rc::clone(&func.exit()))
             .collect::<Vec<_>>();
 
+        #[cfg(rva_verif)]
+        crate::verif_hooks::begin("liveness");
         while changed {
             changed = false;
+            #[cfg(rva_verif)]
+            crate::verif_hooks::sweep("liveness");
             for node in cfg.iter().rev() {
                 // live_out[n] = U live_in[s] for all s in next[n]
                 let live_out = node
